@@ -1,6 +1,6 @@
 (* Extract.v — extraction of the executable model to OCaml. ExtrOcamlBasic only: N, positive, nat
    stay Coq datatypes. *)
-From TungModel Require Import Base Coding Mask Header Frame Utf8 World Message Codec Protocol Sha1 Handshake Digest Client.
+From TungModel Require Import Base Coding Mask Header Frame Utf8 World Message Codec Protocol Sha1 Handshake Digest Client FrameSocket.
 Require Extraction.
 Require Import ExtrOcamlBasic.
 Extraction Language OCaml.
@@ -10,4 +10,4 @@ Extraction "model.ml"
   mask_fast32 xor_cyc from_utf8 collector_extend collector_into_string collector_new
   ctx_new run_ops mkWorld mkConfig wire queued
   sha1 base64 derive_accept_key create_parts write_response generate_request into_client_request
-  server_handshake client_handshake attack_check verify_response run_digest builder_request builder_request_bytes.
+  server_handshake client_handshake attack_check verify_response run_digest builder_request builder_request_bytes fs_run_ops.
